@@ -1663,6 +1663,65 @@ func (g *vGen) scenarioAffinityRefresh() {
 				return fmt.Sprintf("pool pick call=%d picker=%d m=bound ctx=gcp dl=none req=late%d/", call(), cur(), jj)
 			})
 		}
+		if r.Intn(2) == 0 {
+			// life after the swap: the replacement is an ordinary pool member now. It loses its connection, another
+			// channel changes state (a picker is published), calls without a key arrive, it recovers.
+			repl := -1
+			st := []string{"TF", "IDLE", "CONNECTING"}[r.Intn(3)]
+			add(func() string {
+				for sc, ref := range h.gb.scRefs {
+					if id := sc.(*vSubConn).id; ref.refreshCnt > 0 && (repl < 0 || id < repl) {
+						repl = id
+					}
+				}
+				if repl < 0 {
+					return ""
+				}
+				return fmt.Sprintf("pool scs sc=%d st=%s", repl, st)
+			})
+			other := -1
+			add(func() string {
+				for sc := range h.gb.scRefs {
+					if id := sc.(*vSubConn).id; id != repl && (other < 0 || id < other) {
+						other = id
+					}
+				}
+				if repl < 0 || other < 0 {
+					return ""
+				}
+				return fmt.Sprintf("pool scs sc=%d st=CONNECTING", other)
+			})
+			add(func() string {
+				if repl < 0 || other < 0 {
+					return ""
+				}
+				return fmt.Sprintf("pool scs sc=%d st=READY", other)
+			})
+			for j := 0; j < 2; j++ {
+				var id int
+				add(func() string {
+					if cur() < 0 || repl < 0 {
+						return ""
+					}
+					id = call()
+					return fmt.Sprintf("pool pick call=%d picker=%d m=plain ctx=gcp dl=none req=/", id, cur())
+				})
+				if j == 1 {
+					add(func() string {
+						if _, ok := h.calls[id]; !ok {
+							return ""
+						}
+						return fmt.Sprintf("pool done call=%d err=nil reply=/", id)
+					})
+				}
+			}
+			add(func() string {
+				if repl < 0 {
+					return ""
+				}
+				return fmt.Sprintf("pool scs sc=%d st=READY", repl)
+			})
+		}
 	}
 	for i := 0; i < nkeys; i++ {
 		k := fmt.Sprintf("k%d", 1+i)
